@@ -372,6 +372,11 @@ def run_case(draws, prop, tier="quick"):
     profile = PROFILES[prop]
     res = CaseResult()
     st = draws.stream("workload")
+    if prop == "C16" and st.chance(1, 6, "subscription_case"):
+        # hooks over the events of subscriptions (one executor reused for
+        # every event) are checked by the subscription engine
+        from . import subsim
+        return subsim.run_case(draws, prop, tier)
     want_mut = st.chance(*profile["mutation"], "mut")
     spec = gen_schema(st, want_mutation=want_mut)
     try:
